@@ -157,7 +157,7 @@ func c05One(k *stationCase) string {
 // C05: 1005/1006 decode exactly and display to 0.1 mm.
 func C05(r *ev.Run) {
 	thorough := r.Tier == "thorough"
-	r.Rule = "message types 1005 and 1006 x station id {0,1,0xAAA,4095} x ITRF {0,1,63} x every value of each reserved bit group x coordinates from the boundary set {-2^37, -2^37+1, -1, 0, 1, 2^37-1, +-2^k (k=0..36), 0x1555555555, -0x1555555556}: full product for one axis with the other two from {min,-1,0,max}, rotated over the three axes; dense sweeps of every integer in +-2^12 (quick) / +-2^17 (thorough) around 0, +-2^37 and each +-2^k for the display clause; height {0,1,0x5555,0x8000,0xFFFF}; 0..3 trailing payload bytes; every truncation length; wrong-type payloads (1005 layout typed 1006, 1006 typed 1005, types 1004 and 1007); both log levels; direct decoders and handler.GetMessage+String. Non-trivial = distinct (type, field vector) cases"
+	r.Rule = "message types 1005 and 1006 x station id {0,1,0xAAA,4095} x ITRF {0,1,63} x every value of each reserved bit group x coordinates from the boundary set {-2^37, -2^37+1, -1, 0, 1, 2^37-1, +-2^k (k=0..36), 0x1555555555, -0x1555555556}: full product for one axis with the other two from {min,-1,0,max}, rotated over the three axes; dense sweeps of every integer in +-2^12 (quick) / +-2^17 (thorough) around 0, +-2^37 and each +-2^k for the display clause; height {0,1,0x5555,0x8000,0xFFFF}; 0..3 trailing payload bytes; every truncation length of the payload (re-framed) and every prefix of the raw frame bytes from 0 bytes up handed straight to the decoders; wrong-type payloads (1005 layout typed 1006, 1006 typed 1005, types 1004 and 1007); both log levels; direct decoders and handler.GetMessage+String. Non-trivial = distinct (type, field vector) cases"
 	r.Assumptions = []string{"the display oracle is the exact decimal sign int(|v|/10000).%04d(|v| mod 10000) computed in integers", "a 1006-layout payload typed 1005 counts as a 1005 with trailing bytes (accepted); a 1005-layout payload typed 1006 is too short (rejected)"}
 	const maxC = int64(1)<<37 - 1
 	const minC = -(int64(1) << 37)
@@ -208,6 +208,40 @@ func C05(r *ev.Run) {
 	for _, t := range []int{1004, 1007, 0, 4095, 1005, 1006} {
 		for _, wh := range []bool{false, true} {
 			add(stationCase{S: ref.Station{Type: t, ID: 9, ITRF: 3, X: 1, Y: 2, Z: 3, Height: 4}, WithHeight: wh, Truncate: -1})
+		}
+	}
+	// raw buffers handed straight to the decoders: every prefix of a complete
+	// frame, from 0 bytes up (a decoder must reject what is too short for its
+	// fields, whatever the caller hands it)
+	for _, t := range []int{1005, 1006} {
+		full := ref.Frame(ref.EncodeStation(&ref.Station{Type: t, ID: 5, ITRF: 1, X: minC, Y: -1, Z: maxC, Height: 0xFFFF}, t == 1006, 2))
+		need := 19 + 6
+		if t == 1006 {
+			need = 21 + 6
+		}
+		for cut := 0; cut <= len(full); cut++ {
+			buf := full[:cut]
+			for _, lvl := range []slog.Level{slog.LevelDebug, slog.LevelInfo} {
+				var e5, e6 error
+				var n5, n6 bool
+				cl, site, p := guard(func() {
+					m5, err5 := type1005.GetMessage(buf, lvl)
+					m6, err6 := type1006.GetMessage(buf, lvl)
+					e5, e6, n5, n6 = err5, err6, m5 == nil, m6 == nil
+				})
+				r.Count(1, 0, 2, 1)
+				k := map[string]interface{}{"raw_prefix_of_frame_type": t, "prefix_bytes": cut, "buffer": ev.FullHex(buf)}
+				if p {
+					r.Violate(ev.Violation{Fingerprint: "C05 PANIC on a short raw buffer " + cl + "@" + site, What: fmt.Sprintf("decoder panics on a %d-byte buffer", cut), Case: k})
+					continue
+				}
+				// only the decoder of the frame's own type may accept, and only a long enough buffer
+				ok5 := t == 1005 && cut >= need
+				ok6 := t == 1006 && cut >= need
+				if (e5 == nil) != ok5 || (e6 == nil) != ok6 || (e5 != nil && !n5) || (e6 != nil && !n6) {
+					r.Violate(ev.Violation{Fingerprint: "C05 short-or-mistyped-raw-buffer-not-rejected", What: fmt.Sprintf("%d-byte prefix of a %d frame: 1005 err=%v, 1006 err=%v", cut, t, e5, e6), Case: k})
+				}
+			}
 		}
 	}
 	// dense sweeps for the display clause
